@@ -122,6 +122,9 @@ func CallResults(results ...interface{}) CallOption {
 		}
 		for i, out := range out {
 			v := reflect.ValueOf(results[i])
+			if !v.IsValid() {
+				return fmt.Errorf(`bigbuff.CallResults results[%d] error: nil not ptr`, i)
+			}
 			t := v.Type()
 			if kind := t.Kind(); kind != reflect.Ptr {
 				return fmt.Errorf(`bigbuff.CallResults results[%d] error: %v kind %v not ptr`, i, t, kind)
